@@ -462,11 +462,12 @@ def c01(v):
         v.add_tlc(res, "tlc -config gen.cfg TripleGen.tla")
         for g in res.tagged("GEN"):
             if g[1] == "ymd":
-                _, _, y, m, d, verdict, n = g
+                _, _, y, m, d, verdict, n, kinds = g
                 if (y, m, d) in seen:
                     continue
                 seen.add((y, m, d))
-                plan.append(("D.try_from_ymd", [y, m, d], ("eq", [0, n]) if verdict == 0 else ("errk", verdict)))
+                # a triple wrong in two ways matches two error kinds; the property does not rank them
+                plan.append(("D.try_from_ymd", [y, m, d], ("eq", [0, n]) if verdict == 0 else ("in", [[1, k] for k in kinds if k])))
                 plan.append(("D.is_valid", [y, m, d], ("eq", [0, 1 if verdict == 0 else 0])))
             else:
                 _, _, n, verdict = g
@@ -1167,6 +1168,16 @@ def c04(v):
         for ty, pool in tys:
             for _ in range(2):
                 plan.append((ty + ".format", [rnd.choice(pool), pic]))
+    # ONE Formatter object formatting values of several types in turn (a formatter has no memory: every step must give
+    # what a fresh formatter gives - judged step by step by the F.session clause of Ops.tla)
+    somepics = [list(PIC_DATE1), list(PIC_TS), list(PIC_TIME), list("DD HH24:MI:SS.FF6"), list("YYYY-MM")] + pics[:60 * scale_of(v)]
+    for pic in somepics:
+        steps = []
+        for _ in range(8):
+            ty, pool = rnd.choice(tys)
+            steps.append([ty, rnd.choice(pool)])
+        steps.append(list(steps[0]))          # the first value again at the end
+        plan.append(("F.session", [pic, steps]))
     # single-token pictures x every type: applicability table
     for tok in ALL_TOKENS:
         for ty, pool in tys:
